@@ -1,6 +1,6 @@
 (* Props/C05.v — LRU eviction is transparent and bounded.  Statements only. *)
 From Salsa Require Import Base.
-From Salsa.Core Require Import Model Spec LruProofs Inv InvTop.
+From Salsa.Core Require Import Model Spec LruProofs Inv InvTop DInvTop.
 
 (* Bounded, least-recently-used first: the eviction pass splits the recency order into the
    evicted prefix and the kept suffix, keeps at most [c] keys, and leaves the capacity alone. *)
@@ -68,7 +68,33 @@ Print Assumptions C05_zero_disables.
 
 (* Transparency: with set_lru_capacity / trigger_lru_eviction interleaved anywhere in the
    history (they are ordinary operations of the alphabet), every Get still returns the
-   from-scratch value.  (LOW-durability histories; see C01 for the general statement's status.) *)
+   from-scratch value -- for inputs and writes of every durability (an evicted memo that is
+   re-verified through the durability short-cut keeps no value and is recomputed on demand;
+   an evicted memo that is verified in the current revision and recomputed does not lower its
+   durability: [ext_vcur] in Core/DInv.v). *)
+Theorem C05_transparent :
+  forall (prog : qkey -> body) (noeq : qkey -> bool) (fams : list N)
+         (rank : qkey -> nat) (NF : nat),
+  calls_below prog rank -> (forall q, (rank q < NF)%nat) ->
+  forall fuel, (forall p, (rank p < fuel)%nat) ->
+  forall iv idur lru0 ops,
+    (forall i, idur i <= 3) -> Forall dur_op ops -> wf_ops false ops ->
+    outs_ok prog noeq fams NF fuel (init iv idur lru0) ops.
+Proof.
+  intros prog noeq fams rank NF Hrank Hbound.
+  exact (from_scratch_dur_init prog noeq fams rank Hrank NF Hbound).
+Qed.
+Check C05_transparent :
+  forall (prog : qkey -> body) (noeq : qkey -> bool) (fams : list N)
+         (rank : qkey -> nat) (NF : nat),
+  calls_below prog rank -> (forall q, (rank q < NF)%nat) ->
+  forall fuel, (forall p, (rank p < fuel)%nat) ->
+  forall iv idur lru0 ops,
+    (forall i, idur i <= 3) -> Forall dur_op ops -> wf_ops false ops ->
+    outs_ok prog noeq fams NF fuel (init iv idur lru0) ops.
+Print Assumptions C05_transparent.
+
+(* the earlier LOW-durability statement, now a corollary *)
 Theorem C05_transparent_partial :
   forall (prog : qkey -> body) (noeq : qkey -> bool) (fams : list N)
          (rank : qkey -> nat) (NF : nat),
@@ -78,9 +104,8 @@ Theorem C05_transparent_partial :
     Forall low_op ops -> wf_ops false ops ->
     outs_ok prog noeq fams NF fuel (init iv (fun _ => 0) lru0) ops.
 Proof.
-  intros prog noeq fams rank NF Hrank Hbound fuel Hfuel iv lru0 ops Hlow Hwf.
-  exact (from_scratch_low prog noeq fams rank Hrank NF Hbound fuel Hfuel ops false _ Hlow Hwf
-           (init_ok prog NF iv lru0)).
+  intros prog noeq fams rank NF Hrank Hbound.
+  exact (from_scratch_low_again prog noeq fams rank Hrank NF Hbound).
 Qed.
 Check C05_transparent_partial :
   forall (prog : qkey -> body) (noeq : qkey -> bool) (fams : list N)
